@@ -118,11 +118,12 @@ impl LanguageServer for Server {
     ) -> BoxFuture<'static, Result<Option<GotoDefinitionResponse>, Self::Error>> {
         tracing::info!("goto_definition: {params:?}");
         let task = self.spawn_with_snapshot(params, move |snap, params| {
-            let (pos, line_index) =
-                from_proto::file_pos(&snap, params.text_document_position_params);
+            let (pos, _) = from_proto::file_pos(&snap, params.text_document_position_params);
             let Some(location) = snap.analysis.goto_definition(pos) else {
                 return Ok(None);
             };
+            // the target may lie in another file: its range is in that file's coordinates
+            let line_index = snap.analysis.line_index(location.file);
 
             #[cfg(feature = "verif")]
             crate::verif::point("vfs.read.before");
@@ -139,7 +140,7 @@ impl LanguageServer for Server {
     ) -> BoxFuture<'static, Result<Option<Vec<Location>>, Self::Error>> {
         tracing::info!("references: {params:?}");
         let task = self.spawn_with_snapshot(params, move |snap, params| {
-            let (pos, line_index) = from_proto::file_pos(&snap, params.text_document_position);
+            let (pos, _) = from_proto::file_pos(&snap, params.text_document_position);
             let Some(location_list) = snap.analysis.references(pos) else {
                 return Ok(None);
             };
@@ -148,7 +149,11 @@ impl LanguageServer for Server {
             let vfs = snap.vfs.read().unwrap();
             let lsp_location_list = location_list
                 .into_iter()
-                .map(|it| to_proto::location(&vfs, &line_index, it))
+                .map(|it| {
+                    // each reference is expressed in the coordinates of its own file
+                    let line_index = snap.analysis.line_index(it.file);
+                    to_proto::location(&vfs, &line_index, it)
+                })
                 .collect();
             Ok(Some(lsp_location_list))
         });
